@@ -16,7 +16,7 @@ import itertools
 
 import z3
 
-from .core import ExcObj, NativeFn, PList, PyRaise, Unsupported, is_z3, to_real
+from .core import ExcObj, NativeFn, PathInfeasible, PList, PyRaise, Unsupported, is_z3, to_real
 from .ext import NArr
 from .interp import AbsValue
 
@@ -458,6 +458,7 @@ class LP:
         # outside A4: the solver may also answer 1 (iteration limit), 4 (numerical difficulties) or a 3 that is not true
         # (HiGHS presolve does that on badly scaled rows) - an answer that carries no information and no optimum
         self.gives_up = gives_up
+        self.on_call = None  # optional callback(call): e.g. to assume instances of A4's quantified parts at known points
 
     def install(self, modname="pacti.terms.polyhedra.polyhedra"):
         self.h.I.load_module(modname)
@@ -539,4 +540,9 @@ class LP:
                 facts.append(z3.Sum([lam[i] * to_real(rows[i][j]) for i in range(len(rows))] + [z3.RealVal(0)]) == 0)
             facts.append(z3.Sum([lam[i] * to_real(bs[i]) for i in range(len(rows))] + [z3.RealVal(0)]) < 0)
             self.h.assume(z3.And(*facts), "A4.infeasibility_certificate")
+        if self.on_call is not None:
+            self.on_call(call)
+        if explicit and not ctx.feasible(z3.BoolVal(True)):
+            # the answer contradicts its own certificate on this path (e.g. "unbounded" over a box): not a path
+            raise PathInfeasible("LP answer %d impossible here" % status)
         return LPResult(call, slack)
